@@ -20,6 +20,7 @@ func init() {
 }
 
 func checkC16(c *Ctx, r *Report) {
+	defer treeClassificationRule(c, r)
 	r.Assumption("the handling tree is a private Config built from map[string]configHandling without variable expansion (checked under C08 R08c)")
 	_, consts := handlingEnum(c)
 	constName := map[int64]string{}
@@ -463,4 +464,57 @@ func optionPurityRule(c *Ctx, r *Report) {
 		r.Check(bad == "", "R16e", name, "no write of captured state", c.Pos(pos), "the option's application writes only through its *options parameter and fresh objects",
 			"applying this Option "+bad+": the Option value keeps state between applications, so a later Merge/Unpack with the same Option value sees what an earlier option list left behind (per-field policies leak to other calls)")
 	}
+}
+
+// treeClassificationRule (R16f): the per-field handling tree is itself a Config. Its writer (the Field*Values option,
+// which merges dotted field names into it) and its readers (child / configHandling / wildcard, which address it with
+// the (name, idx) pairs of the merge in progress) must classify a numeric path component the same way — as a list
+// index or as a name. The readers use the library's defaults; a writer that parses the names under the caller's
+// MaxIdx or EnableNumKeys stores "404" as a name where the reader looks for index 404 (or the other way round), and
+// the policy is silently not applied below that component.
+func treeClassificationRule(c *Ctx, r *Report) {
+	r.Rule("R16f", "the writer and the readers of the per-field handling tree use the same index classification options (MaxIdx, EnableNumKeys): today none on either side", 1)
+	classification := map[string]bool{"MaxIdx": true, "EnableNumKeys": true}
+	collect := func(fns []*ssa.Function) map[string]bool {
+		out := map[string]bool{}
+		for _, fn := range fns {
+			for _, ci := range CallsIn(fn, false) {
+				if g := ci.Common().StaticCallee(); g != nil && g.Pkg == c.SSA[""] && classification[g.Name()] {
+					out[g.Name()] = true
+				}
+			}
+		}
+		return out
+	}
+	var writers, readers []*ssa.Function
+	if f := c.TryFunc("", "makeFieldOptValueHandling"); f != nil {
+		writers = append(writers, WithAnon(f)...)
+	}
+	treeT := types.NewPointer(c.Named("", "fieldHandlingTree"))
+	ms := c.SSA[""].Prog.MethodSets.MethodSet(treeT)
+	for i := 0; i < ms.Len(); i++ {
+		f := c.SSA[""].Prog.MethodValue(ms.At(i))
+		if f == nil {
+			continue
+		}
+		f = declared(c, f)
+		if f.Name() == "merge" {
+			writers = append(writers, WithAnon(f)...)
+		} else {
+			readers = append(readers, WithAnon(f)...)
+		}
+	}
+	if len(writers) == 0 || len(readers) == 0 {
+		r.add("R16f", "ucfg.fieldHandlingTree", "same classification", "-", Undecided, true, "writer or readers of the handling tree not found")
+		return
+	}
+	w, rd := collect(writers), collect(readers)
+	same := len(w) == len(rd)
+	for k := range w {
+		if !rd[k] {
+			same = false
+		}
+	}
+	r.Check(same, "R16f", "ucfg.fieldHandlingTree", "same classification", "-", "writer: ["+strings.Join(sortedKeys(w), ",")+"] readers: ["+strings.Join(sortedKeys(rd), ",")+"]",
+		"the handling tree is written under ["+strings.Join(sortedKeys(w), ",")+"] and read under ["+strings.Join(sortedKeys(rd), ",")+"]: a numeric component of a Field*Values path is a list index for one side and a name for the other whenever the caller's MaxIdx / EnableNumKeys differ from the defaults — the named subtree is then merged under the global policy")
 }
